@@ -100,4 +100,6 @@ def panel (f : Feat) : Panel :=
     prog := prog f,
     ctrl := .uc (Uc.por WIDTH HEIGHT 1 9 false) }
 
+attribute [driver_simp] W sendResolution setLutHelper setLut init shiftDisplay updateFrame displayFrame updateNewFrame prog
+
 end EpdVerif.Drivers.Epd4in2
